@@ -247,63 +247,252 @@ Proof.
   - apply IHn. congruence.
 Qed.
 
+(* known registers *)
+Definition kok (k : list (reg * Z)) (regs : list Z) : Prop := forall r z, In (r, z) k -> nthZ regs r = z.
+
+Lemma klook_in : forall k r z, klook k r = Some z -> In (r, z) k.
+Proof.
+  induction k as [|[r' z'] t IH]; intros r z H; cbn in H; [discriminate|].
+  destruct (Nat.eqb_spec r' r) as [->|N]; [inversion H; now left|right; auto].
+Qed.
+
+Lemma in_kdel : forall k r r' z, In (r', z) (kdel k r) -> r' <> r /\ In (r', z) k.
+Proof.
+  intros k r r' z H. unfold kdel in H. apply filter_In in H. destruct H as [H1 H2]. cbn in H2.
+  split; auto. intros ->. rewrite Nat.eqb_refl in H2. discriminate.
+Qed.
+
+Lemma in_kins : forall k r z r' z', In (r', z') (kins k r z) -> (r', z') = (r, z) \/ In (r', z') k.
+Proof.
+  induction k as [|[a b] t IH]; intros r z r' z' H; cbn [kins] in H.
+  - destruct H as [H|[]]. left. congruence.
+  - destruct (r <? a)%nat.
+    + destruct H as [H|H]; [left; congruence|auto].
+    + destruct H as [H|H]; [right; now left|]. apply IH in H. destruct H; auto. right. now right.
+Qed.
+
+Lemma kok_kdel : forall k regs r x, kok k regs -> kok (kdel k r) (set_nth regs r x).
+Proof.
+  intros k regs r x H r' z Hin. apply in_kdel in Hin. destruct Hin as [N Hin].
+  rewrite nthZ_set_other by congruence. auto.
+Qed.
+
+Lemma kok_kset : forall k regs r x, kok k regs -> kok (kset k r x) (set_nth regs r x).
+Proof.
+  intros k regs r x H r' z Hin. unfold kset in Hin. apply in_kins in Hin. destruct Hin as [E|Hin].
+  - inversion E; subst. apply nthZ_set_same.
+  - now apply (kok_kdel k regs r x H).
+Qed.
+
+Lemma keval_sound : forall k args regs e z, kok k regs -> keval k e = Some z -> eval args regs e = z.
+Proof.
+  intros k args regs e. induction e as [n|r|c|a IHa b IHb]; intros z Hk H; cbn in *; try discriminate.
+  - apply Hk. now apply klook_in.
+  - now inversion H.
+  - destruct (keval k a) as [x|]; [|discriminate]. destruct (keval k b) as [y|]; [|discriminate].
+    inversion H; subst. now rewrite (IHa x), (IHb y).
+Qed.
+
+Lemma expr_eqb_eq : forall a b, expr_eqb a b = true -> a = b.
+Proof. intros a b H. unfold expr_eqb in H. destruct (expr_eq_dec a b); [auto|discriminate]. Qed.
+Lemma is_reg_eq : forall rc e, is_reg rc e = true -> e = EReg rc.
+Proof. intros rc [n|r|c|a b] H; cbn in H; try discriminate. apply Nat.eqb_eq in H. now subst. Qed.
+Lemma is_const_eq : forall z e, is_const z e = true -> e = EConst z.
+Proof. intros z [n|r|c|a b] H; cbn in H; try discriminate. apply Z.eqb_eq in H. now subst. Qed.
+Lemma pt_is_true : forall a b, pt_is a b = true <-> a = b.
+Proof. intros a b. unfold pt_is. destruct (pt_eq_dec a b); split; intros; auto; discriminate. Qed.
+
+Lemma mem_st_in : forall x R, mem_st x R = true -> In x R.
+Proof.
+  intros [pc s] R H. unfold mem_st in H. apply existsb_exists in H. destruct H as ([pc' s'] & Hin & H). cbn in H.
+  apply andb_true_iff in H. destruct H as [H1 H2]. apply Nat.eqb_eq in H1.
+  destruct (astate_eq_dec s s'); [|discriminate]. now subst.
+Qed.
+
 Section RmwBest.
   Variable ble : Z -> Z -> Prop.            (* ble a b : a is at least as good as b *)
-  Variable skip : expr -> cond.
+  Variable o : ospec.
+  Variable in_pt : pt -> Z -> Z -> Prop.     (* in_pt q cur val : the pair (loaded value, candidate) lies in point q *)
   Variable l : loc.
   Variable dom : Z -> Prop.                  (* the values that may be recorded (sizes are not the sentinel) *)
   Hypothesis ble_refl : forall a, ble a a.
   Hypothesis ble_trans : forall a b c, ble a b -> ble b c -> ble a c.
-  Hypothesis skip_true : forall args regs v, reg_free v = true ->
-    evalc args regs (skip v) = true -> ble (nthZ regs 0) (eval args [] v).
-  Hypothesis skip_false : forall args regs v, reg_free v = true -> dom (eval args [] v) ->
-    evalc args regs (skip v) = false -> ble (eval args [] v) (nthZ regs 0).
+  Hypothesis cover : forall cur val, dom val -> exists q, In q (o_points o) /\ in_pt q cur val.
+  Hypothesis atom_sound : forall q rc v args regs c b, reg_free v = true ->
+    in_pt q (nthZ regs rc) (eval args [] v) -> atom o q rc v c = Some b -> evalc args regs c = b.
+  Hypothesis improves_sound : forall q cur val, in_pt q cur val -> o_improves o q = true -> ble val cur.
+  Hypothesis skipok_sound : forall q cur val, in_pt q cur val -> o_skipok o q = true -> ble cur val.
+  Hypothesis skipok_complete : forall q cur val, dom val -> in_pt q cur val -> ble cur val -> o_skipok o q = true.
 
-  Definition cas_sec (v : expr) : section := {| s_cond := CTrue; s_loc := l; s_body := BRmw (cas_prog (skip v) v) |}.
+  (* what an abstract state says about a concrete one (m: current value of the location) *)
+  Definition desc (m : Z) (args regs : list Z) (v : expr) (s : astate) : Prop :=
+    kok (a_known s) regs /\
+    match a_phase s with
+    | PIdle => True
+    | PLoaded rc pts => ble m (nthZ regs rc) /\ exists q, In q pts /\ in_pt q (nthZ regs rc) (eval args [] v)
+    | PGood => ble m (eval args [] v)
+    end.
 
-  Lemma cas_sec_shape : forall secs n s, cas_only skip l secs = true -> nth_error secs n = Some s -> s_loc s = l ->
-    exists v, reg_free v = true /\ s = cas_sec v.
+  Lemma desc_weaken : forall m m' args regs v s, ble m' m -> desc m args regs v s -> desc m' args regs v s.
+  Proof.
+    intros m m' args regs v s Hb [Hk Hp]. split; [exact Hk|]. destruct (a_phase s) as [|rc pts|]; auto.
+    - destruct Hp as [H1 H2]. split; auto. eapply ble_trans; eauto.
+    - eapply ble_trans; eauto.
+  Qed.
+
+  Lemma aevalc_sound : forall args regs v k lp c b, reg_free v = true -> kok k regs ->
+    (forall rc q, lp = Some (rc, q) -> in_pt q (nthZ regs rc) (eval args [] v)) ->
+    aevalc o k lp v c = Some b -> evalc args regs c = b.
+  Proof.
+    intros args regs v k lp c. induction c as [|a b0|a b0|c IH|c1 IH1 c2 IH2|c1 IH1 c2 IH2]; intros b Hv Hk Hlp H.
+    - cbn in H. now inversion H.
+    - cbn [aevalc] in H. cbn [evalc].
+      destruct (keval k a) as [x|] eqn:Ea; [destruct (keval k b0) as [y|] eqn:Eb|].
+      + inversion H. now rewrite (keval_sound _ args _ _ _ Hk Ea), (keval_sound _ args _ _ _ Hk Eb).
+      + destruct lp as [[rc q]|]; [|discriminate]. exact (atom_sound q rc v args regs (CLt a b0) b Hv (Hlp _ _ eq_refl) H).
+      + destruct lp as [[rc q]|]; [|discriminate]. exact (atom_sound q rc v args regs (CLt a b0) b Hv (Hlp _ _ eq_refl) H).
+    - cbn [aevalc] in H. cbn [evalc].
+      destruct (keval k a) as [x|] eqn:Ea; [destruct (keval k b0) as [y|] eqn:Eb|].
+      + inversion H. now rewrite (keval_sound _ args _ _ _ Hk Ea), (keval_sound _ args _ _ _ Hk Eb).
+      + destruct lp as [[rc q]|]; [|discriminate]. exact (atom_sound q rc v args regs (CEq a b0) b Hv (Hlp _ _ eq_refl) H).
+      + destruct lp as [[rc q]|]; [|discriminate]. exact (atom_sound q rc v args regs (CEq a b0) b Hv (Hlp _ _ eq_refl) H).
+    - cbn [aevalc] in H. cbn [evalc]. destruct (aevalc o k lp v c) as [x|]; [|discriminate]. cbn in H. inversion H.
+      now rewrite (IH x).
+    - cbn [aevalc] in H. cbn [evalc].
+      destruct (aevalc o k lp v c1) as [[|]|]; destruct (aevalc o k lp v c2) as [[|]|]; cbn in H; inversion H;
+        rewrite ?(IH1 _ Hv Hk Hlp eq_refl), ?(IH2 _ Hv Hk Hlp eq_refl); auto using andb_false_r.
+    - cbn [aevalc] in H. cbn [evalc].
+      destruct (aevalc o k lp v c1) as [[|]|]; destruct (aevalc o k lp v c2) as [[|]|]; cbn in H; inversion H;
+        rewrite ?(IH1 _ Hv Hk Hlp eq_refl), ?(IH2 _ Hv Hk Hlp eq_refl); auto using orb_true_r.
+  Qed.
+
+  Lemma exit_ok_sound : forall m args regs v s, exit_ok o (a_phase s) = true -> desc m args regs v s -> ble m (eval args [] v).
+  Proof.
+    intros m args regs v s He [_ Hp]. destruct (a_phase s) as [|rc pts|]; cbn in He; [discriminate| |exact Hp].
+    destruct Hp as [H1 (q & Hq & Hin)]. rewrite forallb_forall in He. eapply ble_trans; [exact H1|]. eapply skipok_sound; eauto.
+  Qed.
+
+  Lemma in_succ_if : forall (q : pt) pts x, In q pts -> In x (succ_if pts x).
+  Proof. intros q [|a r] x H; [destruct H|now left]. Qed.
+
+  Opaque set_nth.
+  (* one concrete instruction against the abstract step *)
+  Lemma astep_sound : forall p v s succs m t i,
+    reg_free v = true -> dom (eval (t_args t) [] v) ->
+    nth_error p (t_pc t) = Some i -> i <> IRet ->
+    astep o p v (t_pc t) s = Some succs ->
+    desc (m l) (t_args t) (t_regs t) v s ->
+    forall m' t', step_instr m t l i = (m', t') ->
+    ble (m' l) (m l) /\ (m' l = m l \/ m' l = eval (t_args t) [] v) /\
+    (forall l', l' <> l -> m' l' = m l') /\ t_secs t' = t_secs t /\ t_args t' = t_args t /\ t_si t' = t_si t /\
+    exists s', In (t_pc t', s') succs /\ desc (m' l) (t_args t) (t_regs t') v s'.
+  Proof.
+    intros p v s succs m t i Hv Hdom Hi Hnr Ha [Hk Hp] m' t' Hs.
+    unfold astep in Ha. rewrite Hi in Ha.
+    destruct i as [r|e|e|r old new|r e|c tg|tg|]; cbn [step_instr] in Hs; try discriminate; try congruence.
+    - (* load *)
+      inversion Hs; subst m' t'; clear Hs. inversion Ha; subst succs; clear Ha.
+      split; [apply ble_refl|]. split; [now left|]. split; [auto|]. cbn [at_pc t_secs t_args t_si t_pc t_regs]. repeat (split; [reflexivity|]).
+      eexists. split; [now left|]. split; cbn [a_known a_phase].
+      + now apply kok_kdel.
+      + destruct (a_phase s) as [|rc pts|].
+        * rewrite nthZ_set_same. split; [apply ble_refl|]. now apply cover.
+        * rewrite nthZ_set_same. split; [apply ble_refl|]. now apply cover.
+        * rewrite nthZ_set_same. split; [apply ble_refl|].
+          destruct (cover (m l) (eval (t_args t) [] v) Hdom) as (q & Hq & Hin). exists q. split; [|exact Hin].
+          apply filter_In. split; [exact Hq|]. eapply skipok_complete; eauto.
+    - (* cas *)
+      destruct (a_phase s) as [|rc pts|] eqn:Eph; try discriminate.
+      destruct (is_reg rc old && expr_eqb new v && forallb (o_improves o) pts) eqn:Ec; [|discriminate].
+      apply andb_true_iff in Ec. destruct Ec as [Ec Himp]. apply andb_true_iff in Ec. destruct Ec as [Eo En].
+      apply is_reg_eq in Eo. apply expr_eqb_eq in En. subst old new. inversion Ha; subst succs; clear Ha.
+      destruct Hp as [Hcur (q & Hq & Hin)]. rewrite forallb_forall in Himp.
+      cbn [eval] in Hs. fold (nthZ (t_regs t) rc) in Hs. rewrite (eval_reg_free _ _ _ Hv) in Hs.
+      destruct (m l =? nthZ (t_regs t) rc) eqn:Ecas.
+      + inversion Hs; subst m' t'; clear Hs. rewrite upd_same. apply Z.eqb_eq in Ecas.
+        split; [rewrite Ecas; eapply improves_sound; eauto|]. split; [now right|].
+        split; [intros l' Hl'; now apply upd_other|]. cbn [at_pc t_secs t_args t_si t_pc t_regs]. repeat (split; [reflexivity|]).
+        eexists. split; [now left|]. split; cbn [a_known a_phase]; [now apply kok_kset|apply ble_refl].
+      + inversion Hs; subst m' t'; clear Hs.
+        split; [apply ble_refl|]. split; [now left|]. split; [auto|]. cbn [at_pc t_secs t_args t_si t_pc t_regs]. repeat (split; [reflexivity|]).
+        eexists. split; [right; now left|]. split; cbn [a_known a_phase]; [now apply kok_kset|exact I].
+    - (* set *)
+      inversion Hs; subst m' t'; clear Hs. inversion Ha; subst succs; clear Ha.
+      split; [apply ble_refl|]. split; [now left|]. split; [auto|]. cbn [at_pc t_secs t_args t_si t_pc t_regs]. repeat (split; [reflexivity|]).
+      eexists. split; [now left|]. split; cbn [a_known a_phase].
+      + destruct (keval (a_known s) e) as [z|] eqn:Ek.
+        * rewrite (keval_sound _ (t_args t) _ _ _ Hk Ek). now apply kok_kset.
+        * now apply kok_kdel.
+      + destruct (a_phase s) as [|rc pts|]; auto.
+        destruct (Nat.eqb_spec rc r) as [->|N]; [exact I|]. rewrite nthZ_set_other by congruence. exact Hp.
+    - (* conditional jump *)
+      inversion Hs; subst m' t'; clear Hs.
+      split; [apply ble_refl|]. split; [now left|]. split; [auto|]. cbn [at_pc t_secs t_args t_si t_pc t_regs]. repeat (split; [reflexivity|]).
+      destruct (a_phase s) as [|rc pts|] eqn:Eph.
+      + pose proof (aevalc_sound (t_args t) (t_regs t) v (a_known s) None c) as Hsnd.
+        destruct (aevalc o (a_known s) None v c) as [[|]|] eqn:Eev; inversion Ha; subst succs; clear Ha.
+        * rewrite (Hsnd true) by (auto; intros; discriminate). exists s. split; [now left|]. split; [auto|now rewrite Eph].
+        * rewrite (Hsnd false) by (auto; intros; discriminate). exists s. split; [now left|]. split; [auto|now rewrite Eph].
+        * exists s. split; [destruct (evalc _ _ c); [now left|right; now left]|]. split; [auto|now rewrite Eph].
+      + inversion Ha; subst succs; clear Ha. destruct Hp as [Hcur (q & Hq & Hin)].
+        assert (Hsnd : forall b, aevalc o (a_known s) (Some (rc, q)) v c = Some b -> evalc (t_args t) (t_regs t) c = b).
+        { intros b. apply aevalc_sound; auto. intros rc' q' E. inversion E; subst. exact Hin. }
+        destruct (evalc (t_args t) (t_regs t) c) eqn:Eev.
+        * assert (Hq' : In q (filter (fun q0 => not_false (aevalc o (a_known s) (Some (rc, q0)) v c)) pts)).
+          { apply filter_In. split; auto. destruct (aevalc o (a_known s) (Some (rc, q)) v c) as [[|]|] eqn:E; auto.
+            specialize (Hsnd false eq_refl). discriminate. }
+          eexists. split; [apply in_or_app; left; eapply in_succ_if; exact Hq'|].
+          split; cbn [a_known a_phase]; auto. split; auto. exists q. auto.
+        * assert (Hq' : In q (filter (fun q0 => not_true (aevalc o (a_known s) (Some (rc, q0)) v c)) pts)).
+          { apply filter_In. split; auto. destruct (aevalc o (a_known s) (Some (rc, q)) v c) as [[|]|] eqn:E; auto. }
+          eexists. split; [apply in_or_app; right; eapply in_succ_if; exact Hq'|].
+          split; cbn [a_known a_phase]; auto. split; auto. exists q. auto.
+      + pose proof (aevalc_sound (t_args t) (t_regs t) v (a_known s) None c) as Hsnd.
+        destruct (aevalc o (a_known s) None v c) as [[|]|] eqn:Eev; inversion Ha; subst succs; clear Ha.
+        * rewrite (Hsnd true) by (auto; intros; discriminate). exists s. split; [now left|]. split; [auto|now rewrite Eph].
+        * rewrite (Hsnd false) by (auto; intros; discriminate). exists s. split; [now left|]. split; [auto|now rewrite Eph].
+        * exists s. split; [destruct (evalc _ _ c); [now left|right; now left]|]. split; [auto|now rewrite Eph].
+    - (* jump *)
+      inversion Hs; subst m' t'; clear Hs. inversion Ha; subst succs; clear Ha.
+      split; [apply ble_refl|]. split; [now left|]. split; [auto|]. cbn [at_pc t_secs t_args t_si t_pc t_regs]. repeat (split; [reflexivity|]).
+      exists s. split; [now left|]. split; auto.
+  Qed.
+  Transparent set_nth.
+
+  (* shape of a section on l *)
+  Lemma cas_sec_shape : forall secs n s, cas_only o l secs = true -> nth_error secs n = Some s -> s_loc s = l ->
+    exists p v, s_cond s = CTrue /\ s_body s = BRmw p /\ operand p = Some v /\ reg_free v = true /\ is_rmw_loop o p v = true.
   Proof.
     intros secs n s H Hn Hl. unfold cas_only in H. rewrite forallb_forall in H.
     specialize (H s (nth_error_In _ _ Hn)). unfold is_cas_sec in H. rewrite Hl, N.eqb_refl in H. cbn [negb orb] in H.
-    destruct s as [c l0 b]. cbn in *. subst l0.
-    destruct c; try discriminate. destruct b as [| |p|]; try discriminate.
+    destruct (s_cond s); try discriminate. destruct (s_body s) as [| |p|]; try discriminate.
     destruct (operand p) as [v|] eqn:Eo; try discriminate.
-    apply andb_true_iff in H. destruct H as [Hr Hp]. unfold prog_eqb in Hp.
-    destruct (list_eq_dec instr_eq_dec p (cas_prog (skip v) v)); try discriminate.
-    exists v. subst p. auto.
+    apply andb_true_iff in H. destruct H as [Hr Hp]. exists p, v. auto.
   Qed.
 
-  (* values that the current value of l must be at least as good as, because of the control state of t *)
-  Definition cur_obl (t : thread) : list Z :=
-    match nth_error (t_secs t) (t_si t) with
-    | Some s =>
-        if N.eqb (s_loc s) l then
-          match s_body s with
-          | BRmw p => match operand p with
-                      | Some v =>
-                          let val := eval (t_args t) [] v in
-                          match t_pc t with
-                          | 1%nat | 2%nat => [nthZ (t_regs t) 0]
-                          | 3%nat => if nthZ (t_regs t) 1 =? 0 then [] else [val]
-                          | 5%nat => [val]
-                          | _ => []
-                          end
-                      | None => []
-                      end
-          | _ => []
-          end
-        else []
-    | None => []
-    end.
+  Lemma rmw_loop_start : forall p v, is_rmw_loop o p v = true ->
+    exists R, closed o p v R = true /\ In (0%nat, astate0) R.
+  Proof.
+    intros p v H. unfold is_rmw_loop in H. destruct (reach _ _ _ _ _ _) as [R|]; [|discriminate].
+    apply andb_true_iff in H. destruct H as [H1 H2]. exists R. split; auto. now apply mem_st_in.
+  Qed.
 
-  Definition loc_ok (t : thread) : Prop :=
-    forall s v, nth_error (t_secs t) (t_si t) = Some s -> s = cas_sec v ->
-      (t_pc t <= 5)%nat /\ (t_pc t = 2%nat -> ble (eval (t_args t) [] v) (nthZ (t_regs t) 0)).
+  Lemma closed_step : forall p v R pc s, closed o p v R = true -> In (pc, s) R ->
+    exists succs, astep o p v pc s = Some succs /\ forall x, In x succs -> In x R.
+  Proof.
+    intros p v R pc s H Hin. unfold closed in H. rewrite forallb_forall in H. specialize (H _ Hin). cbn [fst snd] in H.
+    destruct (astep o p v pc s) as [succs|]; [|discriminate]. exists succs. split; auto.
+    rewrite forallb_forall in H. intros x Hx. apply mem_st_in. auto.
+  Qed.
+
+  (* the invariant of a thread inside a section on l: its control state is described by a state of a closed set *)
+  Definition sec_inv (m : Z) (t : thread) : Prop :=
+    forall s p v, nth_error (t_secs t) (t_si t) = Some s -> s_loc s = l -> s_body s = BRmw p -> operand p = Some v ->
+      exists R s', closed o p v R = true /\ In (t_pc t, s') R /\ desc m (t_args t) (t_regs t) v s'.
 
   Definition thread_ok (m : Z) (t : thread) : Prop :=
-    (cas_only skip l (t_secs t) = true /\ forall x, In x (recorded_total l t) -> dom x) /\ loc_ok t /\
-    (forall x, In x (recorded_so_far l t) -> ble m x) /\ (forall x, In x (cur_obl t) -> ble m x).
+    (cas_only o l (t_secs t) = true /\ forall x, In x (recorded_total l t) -> dom x) /\
+    (forall x, In x (recorded_so_far l t) -> ble m x) /\ sec_inv m t.
 
   Lemma recorded_app : forall args a b, recorded l args (a ++ b) = recorded l args a ++ recorded l args b.
   Proof. induction a as [|s r IH]; intros b; cbn [recorded app]; auto. now rewrite IH, app_assoc. Qed.
@@ -318,126 +507,79 @@ Section RmwBest.
   Lemma recorded_other : forall args s, s_loc s <> l -> recorded l args [s] = [].
   Proof. intros args s H. cbn. destruct (N.eqb_spec (s_loc s) l); [congruence|reflexivity]. Qed.
 
-  Lemma recorded_in : forall args secs n v, nth_error secs n = Some (cas_sec v) -> In (eval args [] v) (recorded l args secs).
+  Lemma recorded_one : forall args s p v, s_loc s = l -> s_body s = BRmw p -> operand p = Some v ->
+    recorded l args [s] = [eval args [] v].
+  Proof. intros args s p v Hl Hb Ho. cbn. rewrite Hl, N.eqb_refl, Hb, Ho. reflexivity. Qed.
+
+  Lemma recorded_in : forall args secs n s p v, nth_error secs n = Some s -> s_loc s = l -> s_body s = BRmw p ->
+    operand p = Some v -> In (eval args [] v) (recorded l args secs).
   Proof.
-    induction secs as [|s r IH]; intros [|n] v H; cbn in H; try discriminate.
-    - inversion H; subst. cbn. rewrite N.eqb_refl. cbn. now left.
-    - cbn [recorded]. apply in_or_app. right. eauto.
+    induction secs as [|s0 r IH]; intros [|n] s p v H Hl Hb Ho; cbn in H; try discriminate.
+    - inversion H as [E0]. subst s0. change (s :: r) with ([s] ++ r). rewrite recorded_app, (recorded_one _ _ _ _ Hl Hb Ho). now left.
+    - change (s0 :: r) with ([s0] ++ r). rewrite recorded_app. apply in_or_app. right. eauto.
   Qed.
 
-  Lemma cur_obl_next_nil : forall t, (forall s, nth_error (t_secs t) (S (t_si t)) = Some s -> s_loc s = l ->
-      exists v, s = cas_sec v) -> cur_obl (next_sec t) = [].
+  Lemma sec_inv_next : forall m t, cas_only o l (t_secs t) = true -> sec_inv m (next_sec t).
   Proof.
-    intros t H. unfold cur_obl, next_sec. cbn [t_secs t_si t_pc t_regs t_args].
-    destruct (nth_error (t_secs t) (S (t_si t))) as [s|] eqn:E; auto.
-    destruct (N.eqb_spec (s_loc s) l); auto.
-    destruct (s_body s); auto. destruct (operand p); auto.
+    intros m t Hc s p v En Hl Hb Ho. cbn [next_sec t_secs t_si t_pc t_regs t_args] in *.
+    destruct (cas_sec_shape _ _ _ Hc En Hl) as (p' & v' & _ & Hb' & Ho' & _ & Hloop).
+    rewrite Hb in Hb'. inversion Hb'; subst p'. rewrite Ho in Ho'. inversion Ho'; subst v'.
+    destruct (rmw_loop_start _ _ Hloop) as (R & Hcl & Hin). exists R, astate0. split; [auto|]. split; [auto|].
+    split; [intros r z []|exact I].
   Qed.
 
-  Lemma loc_ok_next : forall t, loc_ok (next_sec t).
-  Proof. intros t s v _ _. cbn. split; [lia|discriminate]. Qed.
+  Lemma sec_inv_other : forall m t s pc regs, nth_error (t_secs t) (t_si t) = Some s -> s_loc s <> l -> sec_inv m (at_pc t pc regs).
+  Proof.
+    intros m t s pc regs En Nl s0 p v E0 Hl _ _. cbn [at_pc t_secs t_si] in E0. rewrite En in E0. inversion E0; subst. congruence.
+  Qed.
 
-  Opaque set_nth.
   (* one step of a thread that satisfies its invariant: the value of l only improves, changes only to a value
      recorded by this thread, and the thread's invariant holds again *)
   Lemma rmw_step_thread : forall m t m' t',
     thread_ok (m l) t -> step_thread m t = (m', t') ->
     ble (m' l) (m l) /\ (m' l = m l \/ In (m' l) (recorded_total l t)) /\ thread_ok (m' l) t'.
   Proof.
-    intros m t m' t' (Hcd & Hl & Hr & Ho) Hs. pose proof Hcd as [Hc Hd].
+    intros m t m' t' (Hcd & Hr & Hi) Hs. pose proof Hcd as [Hc Hd].
     assert (Hnext : forall s, nth_error (t_secs t) (t_si t) = Some s ->
               (forall x, In x (recorded l (t_args t) [s]) -> ble (m l) x) -> thread_ok (m l) (next_sec t)).
-    { intros s En Hx. split; [exact Hcd|]. split; [apply loc_ok_next|]. split.
-      - intros x Hin. rewrite (rsf_next _ _ En) in Hin. apply in_app_or in Hin. destruct Hin; auto.
-      - rewrite cur_obl_next_nil; [intros x []|].
-        intros s' E' L'. destruct (cas_sec_shape _ _ _ Hc E' L') as (v & _ & ->). eauto. }
+    { intros s En Hx. split; [exact Hcd|]. split; [|now apply sec_inv_next].
+      intros x Hin. rewrite (rsf_next _ _ En) in Hin. apply in_app_or in Hin. destruct Hin; auto. }
     unfold step_thread in Hs.
     destruct (nth_error (t_secs t) (t_si t)) as [s|] eqn:En.
-    2:{ inversion Hs; subst. split; [apply ble_refl|]. split; [now left|]. exact (conj Hcd (conj Hl (conj Hr Ho))). }
+    2:{ inversion Hs; subst. split; [apply ble_refl|]. split; [now left|]. exact (conj Hcd (conj Hr Hi)). }
     specialize (Hnext s eq_refl).
     destruct (N.eqb_spec (s_loc s) l) as [El|Nl].
-    - (* a section on l: it is the CAS loop *)
-      destruct (cas_sec_shape _ _ _ Hc En El) as (v & Hrf & ->).
-      destruct (Hl _ _ En eq_refl) as [Hpc H2].
-      assert (Hobl : cur_obl t = match t_pc t with
-                                 | 1%nat | 2%nat => [nthZ (t_regs t) 0]
-                                 | 3%nat => if nthZ (t_regs t) 1 =? 0 then [] else [eval (t_args t) [] v]
-                                 | 5%nat => [eval (t_args t) [] v]
-                                 | _ => []
-                                 end).
-      { unfold cur_obl. rewrite En. cbn. now rewrite N.eqb_refl. }
-      rewrite Hobl in Ho. clear Hobl.
-      assert (Hat : forall pc regs, (cas_only skip l (t_secs (at_pc t pc regs)) = true /\
-                    forall x, In x (recorded_total l (at_pc t pc regs)) -> dom x) /\
-                 (forall x, In x (recorded_so_far l (at_pc t pc regs)) -> ble (m l) x)) by (intros; split; auto).
+    - (* a section on l: a retry loop of the class *)
+      destruct (cas_sec_shape _ _ _ Hc En El) as (p & v & Hcond & Hbody & Hop & Hrf & Hloop).
+      destruct (Hi s p v En El Hbody Hop) as (R & s0 & Hcl & Hin & Hdesc).
       assert (Hdv : dom (eval (t_args t) [] v)) by (apply Hd; unfold recorded_total; eapply recorded_in; eauto).
-      assert (Hobl' : forall pc regs, cur_obl (at_pc t pc regs) = match pc with
-                                 | 1%nat | 2%nat => [nthZ regs 0]
-                                 | 3%nat => if nthZ regs 1 =? 0 then [] else [eval (t_args t) [] v]
-                                 | 5%nat => [eval (t_args t) [] v]
-                                 | _ => []
-                                 end).
-      { intros. unfold cur_obl, at_pc. cbn [t_secs t_si t_pc t_regs t_args]. rewrite En. cbn. now rewrite N.eqb_refl. }
-      assert (Hlok : forall pc regs, (pc <= 5)%nat -> (pc = 2%nat -> ble (eval (t_args t) [] v) (nthZ regs 0)) ->
-                 loc_ok (at_pc t pc regs)).
-      { intros pc regs Hp Hq s0 v0 E0 Es0. unfold at_pc in *. cbn [t_secs t_si t_pc t_regs t_args] in *.
-        rewrite En in E0. subst s0. unfold cas_sec, cas_prog in E0. inversion E0 as [[Hsk Hv]]. subst v0. auto. }
-      cbn [s_cond evalc negb s_body s_loc cas_sec] in Hs.
-      destruct (t_pc t) as [|[|[|[|[|[|pc]]]]]] eqn:Epc; [| | | | | |lia]; cbn [nth_error cas_prog step_instr] in Hs; rewrite ?Epc in Hs.
-      + (* 0: load *)
-        inversion Hs; subst m' t'. split; [apply ble_refl|]. split; [now left|].
-        destruct (Hat 1%nat (set_nth (t_regs t) 0 (m l))) as [A B]. split; [exact A|]. split.
-        * apply Hlok; [lia|discriminate].
-        * split; [exact B|]. rewrite Hobl'. rewrite nthZ_set_same. intros x [<-|[]]. apply ble_refl.
-      + (* 1: skip? *)
-        inversion Hs; subst m' t'. split; [apply ble_refl|]. split; [now left|].
-        destruct (evalc (t_args t) (t_regs t) (skip v)) eqn:Esk.
-        * destruct (Hat 5%nat (t_regs t)) as [A B]. split; [exact A|]. split; [apply Hlok; [lia|discriminate]|].
-          split; [exact B|]. rewrite Hobl'. intros x [<-|[]].
-          eapply ble_trans; [apply Ho; now left|]. eapply skip_true; eauto.
-        * destruct (Hat 2%nat (t_regs t)) as [A B]. split; [exact A|]. split.
-          { apply Hlok; [lia|]. intros _. eapply skip_false; eauto. }
-          split; [exact B|]. rewrite Hobl'. exact Ho.
-      + (* 2: compare and swap *)
-        rewrite (eval_reg_free _ _ _ Hrf) in Hs. cbn [eval] in Hs.
-        fold (nthZ (t_regs t) 0) in Hs.
-        destruct (m l =? nthZ (t_regs t) 0) eqn:Ecas.
-        * inversion Hs; subst m' t'. rewrite upd_same.
-          assert (Hbetter : ble (eval (t_args t) [] v) (m l)).
-          { apply Z.eqb_eq in Ecas. rewrite Ecas. now apply H2. }
-          split; [exact Hbetter|]. split.
-          { right. unfold recorded_total. eapply recorded_in; eauto. }
-          split; [exact Hcd|]. split; [apply Hlok; [lia|discriminate]|]. split.
-          { intros x Hx. eapply ble_trans; [exact Hbetter|]. apply Hr. exact Hx. }
-          rewrite Hobl'. rewrite nthZ_set_same. cbn. intros x [<-|[]]. apply ble_refl.
-        * inversion Hs; subst m' t'. split; [apply ble_refl|]. split; [now left|].
-          destruct (Hat 3%nat (set_nth (t_regs t) 1 0)) as [A B]. split; [exact A|]. split; [apply Hlok; [lia|discriminate]|].
-          split; [exact B|]. rewrite Hobl'. rewrite nthZ_set_same. cbn. intros x [].
-      + (* 3: retry? *)
-        inversion Hs; subst m' t'. split; [apply ble_refl|]. split; [now left|].
-        cbn [evalc eval]. fold (nthZ (t_regs t) 1).
-        destruct (nthZ (t_regs t) 1 =? 0) eqn:E1; cbn [negb].
-        * destruct (Hat 4%nat (t_regs t)) as [A B]. split; [exact A|]. split; [apply Hlok; [lia|discriminate]|].
-          split; [exact B|]. rewrite Hobl'. intros x [].
-        * destruct (Hat 5%nat (t_regs t)) as [A B]. split; [exact A|]. split; [apply Hlok; [lia|discriminate]|].
-          split; [exact B|]. rewrite Hobl'. exact Ho.
-      + (* 4: back to the load *)
-        inversion Hs; subst m' t'. split; [apply ble_refl|]. split; [now left|].
-        destruct (Hat 0%nat (t_regs t)) as [A B]. split; [exact A|]. split; [apply Hlok; [lia|discriminate]|].
-        split; [exact B|]. rewrite Hobl'. intros x [].
-      + (* 5: return *)
-        inversion Hs; subst m' t'. split; [apply ble_refl|]. split; [now left|].
-        apply Hnext. cbn. rewrite N.eqb_refl. cbn. intros x [<-|[]]. apply Ho. now left.
+      destruct (closed_step _ _ _ _ _ Hcl Hin) as (succs & Hst & Hsub).
+      rewrite Hcond in Hs. cbn [evalc negb] in Hs. rewrite Hbody, El in Hs.
+      assert (Hexit : exit_ok o (a_phase s0) = true -> ble (m l) (m l) /\ (m l = m l \/ In (m l) (recorded_total l t)) /\ thread_ok (m l) (next_sec t)).
+      { intros He. split; [apply ble_refl|]. split; [now left|]. apply Hnext.
+        rewrite (recorded_one _ _ _ _ El Hbody Hop). intros x [<-|[]]. eapply exit_ok_sound; eauto. }
+      destruct (nth_error p (t_pc t)) as [i|] eqn:Ei.
+      + destruct (instr_eq_dec i IRet) as [->|Nret].
+        * cbn [step_instr] in Hs. inversion Hs; subst m' t'. apply Hexit.
+          unfold astep in Hst. rewrite Ei in Hst. destruct (exit_ok o (a_phase s0)); [auto|discriminate].
+        * destruct (astep_sound p v s0 succs m t i Hrf Hdv Ei Nret Hst Hdesc m' t' Hs)
+            as (Hb & Hch & Hoth & Hsecs & Hargs & Hsi & s1 & Hin1 & Hd1).
+          split; [exact Hb|]. split.
+          { destruct Hch as [E|E]; [now left|right]. rewrite E. unfold recorded_total. eapply recorded_in; eauto. }
+          split; [|split].
+          -- unfold recorded_total. rewrite Hsecs, Hargs. exact Hcd.
+          -- unfold recorded_so_far. rewrite Hsecs, Hargs, Hsi. intros x Hx. eapply ble_trans; [exact Hb|]. apply Hr. exact Hx.
+          -- intros s' p' v' En' El' Hb' Ho'. rewrite Hsecs, Hsi, En in En'. inversion En'; subst s'.
+             rewrite Hbody in Hb'. inversion Hb'; subst p'. rewrite Hop in Ho'. inversion Ho'; subst v'.
+             exists R, s1. split; [auto|]. split; [auto|]. rewrite Hargs. exact Hd1.
+      + inversion Hs; subst m' t'. apply Hexit.
+        unfold astep in Hst. rewrite Ei in Hst. destruct (exit_ok o (a_phase s0)); [auto|discriminate].
     - (* a section on another location: l is untouched *)
       assert (Hl' : l <> s_loc s) by congruence.
       assert (Hrec : forall x, In x (recorded l (t_args t) [s]) -> ble (m l) x).
       { rewrite recorded_other by auto. intros x []. }
       assert (Hat : forall pc regs, thread_ok (m l) (at_pc t pc regs)).
-      { intros pc regs. split; [exact Hcd|]. split.
-        - intros s0 v0 E0 Es0. unfold at_pc in E0. cbn [t_secs t_si] in E0. rewrite En in E0. inversion E0; subst s0.
-          subst s. cbn in Nl. congruence.
-        - split; [exact Hr|]. unfold cur_obl, at_pc. cbn [t_secs t_si t_pc t_regs t_args]. rewrite En.
-          destruct (N.eqb_spec (s_loc s) l); [congruence|]. intros x []. }
+      { intros pc regs. split; [exact Hcd|]. split; [exact Hr|]. eapply sec_inv_other; eauto. }
       destruct (negb _).
       { inversion Hs; subst. split; [apply ble_refl|]. split; [now left|]. apply (Hnext Hrec). }
       destruct (s_body s) as [e|e|p|].
@@ -452,12 +594,12 @@ Section RmwBest.
       + inversion Hs; subst. split; [apply ble_refl|]. split; [now left|]. apply (Hnext Hrec).
   Qed.
 
-  Transparent set_nth.
-
   Lemma thread_ok_weaken : forall m m' t, ble m' m -> thread_ok m t -> thread_ok m' t.
   Proof.
-    intros m m' t Hb (A & B & C & D). split; [exact A|]. split; [exact B|].
-    split; intros x Hx; (eapply ble_trans; [exact Hb|]); auto.
+    intros m m' t Hb (A & C & D). split; [exact A|]. split.
+    - intros x Hx. eapply ble_trans; [exact Hb|]. auto.
+    - intros s p v En El Hbd Ho. destruct (D s p v En El Hbd Ho) as (R & s' & H1 & H2 & H3).
+      exists R, s'. split; [auto|]. split; [auto|]. eapply desc_weaken; eauto.
   Qed.
 
   Definition inv (init : Z) (c : config) : Prop :=
@@ -487,15 +629,15 @@ Section RmwBest.
       eapply thread_ok_weaken; eauto.
   Qed.
 
-  Lemma thread_ok_start : forall m t, cas_only skip l (t_secs t) = true -> (forall x, In x (recorded_total l t) -> dom x) ->
+  Lemma thread_ok_start : forall m t, cas_only o l (t_secs t) = true -> (forall x, In x (recorded_total l t) -> dom x) ->
     t_si t = 0%nat -> t_pc t = 0%nat -> thread_ok m t.
   Proof.
     intros m t Hc Hdm Hs Hp. split; [exact (conj Hc Hdm)|]. split.
-    - intros s v _ _. rewrite Hp. split; [lia|discriminate].
-    - split.
-      + unfold recorded_so_far. rewrite Hs. cbn. intros x [].
-      + unfold cur_obl. rewrite Hp. destruct (nth_error _ _) as [s|]; [|intros x []].
-        destruct (N.eqb _ _); [|intros x []]. destruct (s_body s); try (intros x []). destruct (operand p); intros x [].
+    - unfold recorded_so_far. rewrite Hs. cbn. intros x [].
+    - intros s p v En El Hb Ho. destruct (cas_sec_shape _ _ _ Hc En El) as (p' & v' & _ & Hb' & Ho' & _ & Hloop).
+      rewrite Hb in Hb'. inversion Hb'; subst p'. rewrite Ho in Ho'. inversion Ho'; subst v'.
+      destruct (rmw_loop_start _ _ Hloop) as (R & Hcl & Hin). exists R, astate0. split; [auto|]. rewrite Hp. split; [auto|].
+      split; [intros r z []|exact I].
   Qed.
 
   Lemma rsf_done : forall t, done t = true -> recorded_so_far l t = recorded_total l t.
@@ -512,7 +654,7 @@ Section RmwBest.
   (* any number of threads, any schedule: the value of l is at least as good as the initial one, is the initial
      one or one that was recorded, and after quiescence is at least as good as every recorded value *)
   Theorem rmw_best : forall init ts sched,
-    (forall t, In t ts -> cas_only skip l (t_secs t) = true /\ t_si t = 0%nat /\ t_pc t = 0%nat) ->
+    (forall t, In t ts -> cas_only o l (t_secs t) = true /\ t_si t = 0%nat /\ t_pc t = 0%nat) ->
     (forall x, In x (all_recorded ts) -> dom x) ->
     let c := run (init, ts) sched in
     ble (fst c l) (init l) /\
@@ -531,7 +673,7 @@ Section RmwBest.
       apply in_concat. exists (recorded_total l t). split; auto. now apply in_map.
     - intros Hd x Hx. rewrite <- Hcode in Hx. unfold all_recorded in Hx. apply in_concat in Hx.
       destruct Hx as (rl & Hrl & Hx). apply in_map_iff in Hrl. destruct Hrl as (t & <- & Ht).
-      destruct (I3 t Ht) as (_ & _ & Hr & _). apply Hr. rewrite rsf_done; auto.
+      destruct (I3 t Ht) as (_ & Hr & _). apply Hr. rewrite rsf_done; auto.
       unfold all_done in Hd. rewrite forallb_forall in Hd. auto.
   Qed.
 End RmwBest.
@@ -552,17 +694,61 @@ Proof.
     + intros x Hx. apply Ha. now right.
 Qed.
 
+(* the points of the largest-value order *)
+Definition in_pt_max (q : pt) (cur val : Z) : Prop :=
+  match q with PUnset => False | PLt => cur < val | PEq => cur = val | PGt => val < cur end.
+(* the points of the smallest-value order with the sentinel -1 (candidates are >= 0) *)
+Definition in_pt_min (q : pt) (cur val : Z) : Prop :=
+  match q with PUnset => cur = -1 | PLt => cur <> -1 /\ cur < val | PEq => cur = val /\ cur <> -1 | PGt => val < cur /\ cur <> -1 end.
+
+Ltac atom_cases Hv :=
+  repeat match goal with
+         | H : _ && _ = true |- _ => apply andb_true_iff in H; destruct H
+         | H : _ || _ = true |- _ => apply orb_true_iff in H; destruct H
+         | H : is_reg _ _ = true |- _ => apply is_reg_eq in H; subst
+         | H : expr_eqb _ _ = true |- _ => apply expr_eqb_eq in H; subst
+         | H : is_const _ _ = true |- _ => apply is_const_eq in H; subst
+         end;
+  cbn [evalc eval]; rewrite ?(eval_reg_free _ _ _ Hv); unfold nthZ in *.
+
+Lemma atom_sound_max : forall q rc v args regs c b, reg_free v = true ->
+  in_pt_max q (nthZ regs rc) (eval args [] v) -> atom max_spec q rc v c = Some b -> evalc args regs c = b.
+Proof.
+  intros q rc v args regs c b Hv Hin H. destruct c as [|x y|x y| | |]; cbn [atom] in H; try discriminate.
+  - destruct (is_reg rc x && expr_eqb y v) eqn:E1; [|destruct (expr_eqb x v && is_reg rc y) eqn:E2; [|discriminate]];
+      inversion H; subst b; clear H; atom_cases Hv; destruct q; cbn in *; lia.
+  - destruct ((is_reg rc x && expr_eqb y v) || (expr_eqb x v && is_reg rc y)) eqn:E1; [|cbn in H; discriminate].
+    inversion H; subst b; clear H; atom_cases Hv; destruct q; cbn in *; lia.
+Qed.
+
+Lemma atom_sound_min : forall q rc v args regs c b, reg_free v = true ->
+  in_pt_min q (nthZ regs rc) (eval args [] v) -> 0 <= eval args [] v -> atom min_spec q rc v c = Some b -> evalc args regs c = b.
+Proof.
+  intros q rc v args regs c b Hv Hin Hd H. destruct c as [|x y|x y| | |]; cbn [atom] in H; try discriminate.
+  - destruct (is_reg rc x && expr_eqb y v) eqn:E1; [|destruct (expr_eqb x v && is_reg rc y) eqn:E2; [|discriminate]];
+      inversion H; subst b; clear H; atom_cases Hv; destruct q; cbn in *; lia.
+  - destruct ((is_reg rc x && expr_eqb y v) || (expr_eqb x v && is_reg rc y)) eqn:E1.
+    + inversion H; subst b; clear H; atom_cases Hv; destruct q; cbn in *; lia.
+    + cbn [min_spec o_sentinel] in H.
+      destruct ((is_reg rc x && is_const (-1) y) || (is_const (-1) x && is_reg rc y)) eqn:E2; [|discriminate].
+      inversion H; subst b; clear H E1; atom_cases Hv; rewrite ?(Z.eqb_sym (-1)); destruct q; cbn in *; lia.
+Qed.
+
 Theorem max_exact : forall l init ts sched,
-  (forall t, In t ts -> cas_only max_skip l (t_secs t) = true /\ t_si t = 0%nat /\ t_pc t = 0%nat) ->
+  (forall t, In t ts -> cas_only max_spec l (t_secs t) = true /\ t_si t = 0%nat /\ t_pc t = 0%nat) ->
   let c := run (init, ts) sched in
   all_done (snd c) = true -> fst c l = maxZ (init l) (all_recorded l ts).
 Proof.
   intros l init ts sched H c Hd.
-  destruct (rmw_best (fun a b => b <= a) max_skip l (fun _ => True)) with (init := init) (ts := ts) (sched := sched) as (A & B & C); auto.
+  destruct (rmw_best (fun a b => b <= a) max_spec in_pt_max l (fun _ => True)) with (init := init) (ts := ts) (sched := sched) as (A & B & C); auto.
   - intros; lia.
   - intros; lia.
-  - intros args regs v Hr He. cbn in He. rewrite (eval_reg_free _ _ _ Hr) in He. unfold nthZ in *. lia.
-  - intros args regs v Hr _ He. cbn in He. rewrite (eval_reg_free _ _ _ Hr) in He. unfold nthZ in *. lia.
+  - intros cur val _. destruct (Z.lt_trichotomy cur val) as [L|[E|G]];
+      [exists PLt|exists PEq|exists PGt]; cbn; auto.
+  - intros. eapply atom_sound_max; eauto.
+  - intros q cur val Hin Hi. destruct q; cbn in *; try discriminate; lia.
+  - intros q cur val Hin Hi. destruct q; cbn in *; try discriminate; lia.
+  - intros q cur val _ Hin Hb. destruct q; cbn in *; auto; lia.
   - fold c in A, B, C. apply maxZ_char; auto.
 Qed.
 
@@ -587,17 +773,21 @@ Proof.
 Qed.
 
 Theorem min_exact : forall l init ts sched,
-  (forall t, In t ts -> cas_only min_skip l (t_secs t) = true /\ t_si t = 0%nat /\ t_pc t = 0%nat) ->
+  (forall t, In t ts -> cas_only min_spec l (t_secs t) = true /\ t_si t = 0%nat /\ t_pc t = 0%nat) ->
   (init l = -1 \/ 0 <= init l) -> (forall x, In x (all_recorded l ts) -> 0 <= x) ->
   let c := run (init, ts) sched in
   all_done (snd c) = true -> fst c l = minZ (init l) (all_recorded l ts).
 Proof.
   intros l init ts sched H Hi Hv c Hd.
-  destruct (rmw_best ble_min min_skip l (fun x => 0 <= x)) with (init := init) (ts := ts) (sched := sched) as (A & B & C); auto.
+  destruct (rmw_best ble_min min_spec (fun q cur val => in_pt_min q cur val /\ 0 <= val) l (fun x => 0 <= x)) with (init := init) (ts := ts) (sched := sched) as (A & B & C); auto.
   - unfold ble_min. intros a. destruct (Z.eq_dec a (-1)); [left|right]; lia.
   - unfold ble_min. intros; lia.
-  - intros args regs v Hr He. cbn in He. rewrite (eval_reg_free _ _ _ Hr) in He. unfold ble_min, nthZ in *. lia.
-  - intros args regs v Hr Hd0 He. cbn in He. rewrite (eval_reg_free _ _ _ Hr) in He. unfold ble_min, nthZ in *. lia.
+  - intros cur val Hd0. destruct (Z.eq_dec cur (-1)) as [E|N]; [exists PUnset; cbn; auto|].
+    destruct (Z.lt_trichotomy cur val) as [L|[E|G]]; [exists PLt|exists PEq|exists PGt]; cbn; auto 6.
+  - intros q rc v args regs c0 b Hr [Hin Hd0] Ha. eapply atom_sound_min; eauto.
+  - intros q cur val [Hin Hd0] Hi0. unfold ble_min. destruct q; cbn in *; try discriminate; lia.
+  - intros q cur val [Hin Hd0] Hi0. unfold ble_min. destruct q; cbn in *; try discriminate; lia.
+  - intros q cur val _ [Hin Hd0] Hb. unfold ble_min in Hb. destruct q; cbn in *; auto; lia.
   - fold c in A, B, C. apply minZ_char; auto.
 Qed.
 
@@ -680,4 +870,72 @@ Proof.
   - apply max_exact; auto. intros t Ht. destruct (Hts t Ht) as (_ & Hs & Hp). auto.
   - intros Hi Hv. apply min_exact; auto. intros t Ht. destruct (Hts t Ht) as (_ & Hs & Hp). auto.
   - exact I.
+Qed.
+
+(* ---------------------------------------------------------------------------------------------- *)
+(* the class is_rmw_loop: what it contains and what it rejects (complete evaluation on concrete programs) *)
+
+Definition ex_v : expr := EArg 1.
+Definition ex_ok := CNot (CEq (EReg 1%nat) (EConst 0)).
+
+(* the canonical loop, for both orders; each order rejects the other's test *)
+Example class_canonical : is_rmw_loop max_spec (cas_prog (max_skip ex_v) ex_v) ex_v = true /\
+                          is_rmw_loop min_spec (cas_prog (min_skip ex_v) ex_v) ex_v = true /\
+                          is_rmw_loop max_spec (cas_prog (min_skip ex_v) ex_v) ex_v = false /\
+                          is_rmw_loop min_spec (cas_prog (max_skip ex_v) ex_v) ex_v = false.
+Proof. vm_compute. auto. Qed.
+
+(* `if v > cur { if !CAS { continue } }; break` *)
+Example class_continue : is_rmw_loop max_spec
+  [ILoad 0; IJmpIf (CNot (CLt (EReg 0) ex_v)) 5; ICas 1 (EReg 0) ex_v; IJmpIf ex_ok 5; IJmp 0; IJmp 7; IJmp 0; IRet]%nat ex_v = true.
+Proof. vm_compute. reflexivity. Qed.
+
+(* `done := false; for !done { cur := Load; if v <= cur { done = true } else { done = CAS(cur, v) } }` *)
+Example class_done_flag : is_rmw_loop max_spec
+  [ISet 0 (EConst 0); IJmpIf (CNot (CEq (EReg 0) (EConst 0))) 9; ILoad 1; IJmpIf (CLt (EReg 1) ex_v) 6; ISet 0 (EConst 1); IJmp 7;
+   ICas 0 (EReg 1) ex_v; IJmp 1; IRet; IRet]%nat ex_v = true.
+Proof. vm_compute. reflexivity. Qed.
+
+(* `if (cur != -1 && v >= cur) || CAS(cur, v) { break }` with the short-circuit as control flow; and with a CAS on the
+   sentinel path of its own *)
+Example class_short_circuit : is_rmw_loop min_spec
+  [ILoad 0; IJmpIf (min_skip ex_v) 5; ICas 1 (EReg 0) ex_v; IJmpIf ex_ok 5; IJmp 0; IRet]%nat ex_v = true /\
+  is_rmw_loop min_spec
+  [ILoad 0; IJmpIf (CNot (CEq (EReg 0) (EConst (-1)))) 5; ICas 1 (EReg 0) ex_v; IJmpIf ex_ok 10; IJmp 0;
+   IJmpIf (CNot (CLt ex_v (EReg 0))) 10; ICas 1 (EReg 0) ex_v; IJmpIf ex_ok 10; IJmp 0; IRet; IRet]%nat ex_v = true.
+Proof. vm_compute. auto. Qed.
+
+(* `if (v <= cur || CAS(cur, v)) && p { break }` with an opaque p: the loop may run again after a successful swap; what
+   it loads then is known to be good enough *)
+Example class_again_after_success : is_rmw_loop max_spec
+  [ILoad 0; IJmpIf (CNot (CLt (EReg 0) ex_v)) 4; ICas 1 (EReg 0) ex_v; IJmpIf (CEq (EReg 1) (EConst 0)) 5;
+   IJmpIf (CEq (EArg 2) (EArg 2)) 6; IJmp 0; IRet]%nat ex_v = true.
+Proof. vm_compute. reflexivity. Qed.
+
+(* rejected: load-compare-store; one CAS attempt without retry; a plain store on the sentinel path; the CAS executed
+   whatever the test says (the condition `skip || CAS` evaluated without short-circuit); the CAS in the wrong direction *)
+Example class_rejects :
+  is_rmw_loop max_spec (lcs_prog (max_skip ex_v) ex_v) ex_v = false /\
+  is_rmw_loop max_spec [ILoad 0; IJmpIf (max_skip ex_v) 3; ICas 1 (EReg 0) ex_v; IRet]%nat ex_v = false /\
+  is_rmw_loop min_spec
+    [ILoad 0; IJmpIf (CNot (CEq (EReg 0) (EConst (-1)))) 4; IStore ex_v; IJmp 9; IJmpIf (CNot (CLt ex_v (EReg 0))) 9;
+     ICas 1 (EReg 0) ex_v; IJmpIf ex_ok 9; IJmp 0; IRet; IRet]%nat ex_v = false /\
+  is_rmw_loop min_spec [ILoad 0; ICas 1 (EReg 0) ex_v; IJmpIf (COr (min_skip ex_v) ex_ok) 4; IJmp 0; IRet]%nat ex_v = false /\
+  is_rmw_loop max_spec [ILoad 0; IJmpIf (CNot (CLt ex_v (EReg 0))) 5; ICas 1 (EReg 0) ex_v; IJmpIf ex_ok 5; IJmp 0; IRet]%nat ex_v = false.
+Proof. vm_compute. auto 6. Qed.
+
+(* one CAS attempt without retry loses the extreme: thread 0 (records 200) loads 0; thread 1 (records 100) runs to
+   completion and stores 100; thread 0's CAS(0 -> 200) fails and is not retried: the final value is 100 *)
+Definition single_cas_sec (l : loc) : section :=
+  {| s_cond := CTrue; s_loc := l; s_body := BRmw [ILoad 0; IJmpIf (max_skip (EArg 0)) 3; ICas 1 (EReg 0) (EArg 0); IRet]%nat |}.
+Lemma max_single_cas_refuted : exists ts sched,
+  let c := run (fun _ => 0, ts) sched in
+  (forall t, In t ts -> t_secs t = [single_cas_sec 7%N] /\ t_si t = 0%nat /\ t_pc t = 0%nat) /\
+  all_done (snd c) = true /\ fst c 7%N <> maxZ 0 (concat (map (recorded_total 7%N) ts)).
+Proof.
+  exists [start [single_cas_sec 7%N] [200]; start [single_cas_sec 7%N] [100]], [0; 1; 1; 1; 1; 0; 0; 0]%nat.
+  split; [|split].
+  - intros t [<-|[<-|[]]]; repeat split.
+  - vm_compute. reflexivity.
+  - vm_compute. discriminate.
 Qed.
